@@ -1,6 +1,7 @@
 package ref
 
 import (
+	"math"
 	"math/big"
 	"sort"
 	"strconv"
@@ -296,6 +297,17 @@ type faults struct {
 	u    string
 }
 
+// verdict: property C02 makes a call an invalid-type error exactly when an argument's type is outside the signature,
+// and an invalid-value error only for well-typed arguments: a type fault dominates (the corpus pins it for find_first).
+func (f *faults) verdict() Res {
+	for _, c := range f.cats {
+		if c == "invalid-type" {
+			return fail("invalid-type")
+		}
+	}
+	return fail(f.cats...)
+}
+
 func (f *faults) add(c string) {
 	for _, x := range f.cats {
 		if x == c {
@@ -356,6 +368,11 @@ func intArg(v any) (int64, string, string) {
 		return 0, "invalid-value", ""
 	}
 	if !n.R.Num().IsInt64() {
+		// an integer outside the 64-bit range is still a number: negative ones are invalid values; positive ones are
+		// either rejected as invalid values or act as "unlimited" - anything but a type error (callers abstain on the value)
+		if n.R.Sign() < 0 {
+			return math.MinInt64, "", ""
+		}
 		return 0, "", "integer argument beyond 64 bits"
 	}
 	return n.R.Num().Int64(), "", ""
@@ -495,7 +512,7 @@ func (in *interp) builtin(name string, a []any) Res {
 			}
 		}
 		if len(f.cats) > 0 {
-			return fail(f.cats...)
+			return f.verdict()
 		}
 		if neg {
 			return unsure("negative start or end in find_first/find_last")
@@ -793,7 +810,7 @@ func (in *interp) builtin(name string, a []any) Res {
 			pad = p
 		}
 		if len(f.cats) > 0 {
-			return fail(f.cats...)
+			return f.verdict()
 		}
 		if w > 1<<20 {
 			return unsure("pad width beyond the modelled range")
@@ -828,7 +845,7 @@ func (in *interp) builtin(name string, a []any) Res {
 			count = c
 		}
 		if len(f.cats) > 0 {
-			return fail(f.cats...)
+			return f.verdict()
 		}
 		if old == "" {
 			return unsure("replace with an empty search string")
@@ -874,7 +891,7 @@ func (in *interp) builtin(name string, a []any) Res {
 			count = c
 		}
 		if len(f.cats) > 0 {
-			return fail(f.cats...)
+			return f.verdict()
 		}
 		toAny := func(ss []string) []any {
 			out := make([]any, len(ss))
